@@ -96,6 +96,8 @@ struct Scenario {
 			Archive::ClmFile c("out.clm");
 			if (c.GetCount() != s.size()) { bad("count", key, std::to_string(c.GetCount())); ok = false; return; }
 			mc::makeDir("xall");
+			// extraction targets that already exist with longer content (first member, both extraction paths)
+			if (!order.empty()) { mc::writeFile("xall/" + baseOf(*order[0]), std::vector<uint8_t>(audioOf(*order[0]).size() + 4000, 0xEE)); mc::writeFile("x_" + baseOf(*order[0]) + ".wav", std::vector<uint8_t>(audioOf(*order[0]).size() + 4000, 0xEE)); }
 			c.ExtractAllFiles("xall");
 			for (std::size_t i = 0; i < order.size(); ++i) {
 				const Track& t = *order[i];
@@ -140,6 +142,8 @@ struct Scenario {
 			++ordersTried;
 			std::vector<std::string> list;
 			for (int i : perm) list.push_back(pathOf(s[i]));
+			// the destination may already exist and be longer than the new archive (first order of every set)
+			if (!haveFirst) { mc::writeFile("out.clm", std::vector<uint8_t>(300000, 0xEE)); ctx.count("create/over-existing-longer-file"); }
 			auto o = mc::guarded([&] { Archive::ClmFile::CreateArchive("out.clm", list); });
 			ctx.transition();
 			if (o.cls != 'R') { bad("create-refused-valid-set", key, o.what); return; }
